@@ -175,11 +175,20 @@ Init == /\ sph \in BOOLEAN /\ glob \in 1..Len(Globals) /\ frame \in 1..3 /\ sec 
 
 (* an abstract feature: type, geometry indices <<g, dip point, segment set>>, depth kind, model indices per kind *)
 (* so: section overrides of a line feature -- 0 none, 1 the first coordinate gets the alternative segment table, 2 the last coordinate gets
-   the alternative table and a temperature model of its own at section level *)
+   the alternative table and a temperature model of its own at section level, 3 the first coordinate gets the alternative table with
+   composition and grains models at section level, 4 the last coordinate gets the alternative table whose first segment has a temperature
+   model of its own, and velocity models at section level *)
+SecModels(a) == CASE a.so = 2 -> ("temperature models" :> <<TUniform(555, "replace")>>)
+                  [] a.so = 3 -> ("composition models" :> <<CUniform(<<4>>, "replace")>>) @@ ("grains models" :> <<GUniform(<<1>>, <<Mat(20)>>, <<-1>>)>>)
+                  [] a.so = 4 -> ("velocity models" :> <<VUniform(<<-3, 2, 1>>)>>)
+                  [] OTHER -> <<>>
+SecSegs(a) == LET l == AltSegSets[a.sg] IN
+              IF a.so = 4 THEN [i \in 1..Len(l) |-> IF i = 1 THEN l[i] @@ ("temperature models" :> <<TUniform(444, "replace")>>) ELSE l[i]] ELSE l
+SecCoord(a) == IF a.so \in {1, 3} THEN 0 ELSE Len(Trenches[a.g]) - 1
 New(t, g, dp, sg) == [type |-> t, g |-> g, dp |-> dp, sg |-> sg, so |-> 0, dk |-> 1, tm |-> <<>>, cm |-> <<>>, gm |-> <<>>, vm |-> <<>>]
 Start == /\ stage = "none" /\ ~done /\ Len(feats) < MaxFeatures
          /\ \/ \E t \in {"continental plate", "oceanic plate", "mantle layer"}, g \in 1..Len(Polys) : cur' = New(t, g, 0, 0)
-            \/ \E t \in {"subducting plate", "fault"}, g \in 1..Len(Trenches), dp \in 1..Len(DipPoints), sg \in 1..Len(SegSets), so \in 0..2 :
+            \/ \E t \in {"subducting plate", "fault"}, g \in 1..Len(Trenches), dp \in 1..Len(DipPoints), sg \in 1..Len(SegSets), so \in 0..4 :
                   cur' = [New(t, g, dp, sg) EXCEPT !.so = so]
             \/ \E g \in 1..Len(PlumeGeoms) : cur' = New("plume", g, 0, 0)
          /\ stage' = "depths" /\ UNCHANGED <<dm, sec, sph, glob, frame, feats, done>>
@@ -213,10 +222,7 @@ Render(f, a, k) ==
                 @@ ("grains models" :> Models(GModels(f, t), a.gm)) @@ ("velocity models" :> Models(VModels(f, t), a.vm))
   IN CASE IsArea(t) -> common @@ ("coordinates" :> Pts(f, Polys[a.g]))
        [] IsLine(t) -> common @@ ("coordinates" :> Pts(f, Trenches[a.g])) @@ ("dip point" :> XYg(f, DipPoints[a.dp])) @@ ("segments" :> SegSets[a.sg])
-                       @@ (CASE a.so = 1 -> ("sections" :> << ("coordinate" :> 0) @@ ("segments" :> AltSegSets[a.sg]) >>)
-                             [] a.so = 2 -> ("sections" :> << ("coordinate" :> (Len(Trenches[a.g]) - 1)) @@ ("segments" :> AltSegSets[a.sg])
-                                                               @@ ("temperature models" :> <<TUniform(555, "replace")>>) >>)
-                             [] OTHER -> <<>>)
+                       @@ (IF a.so > 0 THEN ("sections" :> << ("coordinate" :> SecCoord(a)) @@ ("segments" :> SecSegs(a)) @@ SecModels(a) >>) ELSE <<>>)
        [] OTHER -> LET p == PlumeGeoms[a.g] IN
                    common @@ ("coordinates" :> Pts(f, p.c)) @@ ("cross section depths" :> p.d) @@ ("semi-major axis" :> [i \in 1..Len(p.a) |-> U(f, p.a[i])])
                           @@ ("eccentricity" :> p.e) @@ ("rotation angles" :> [i \in 1..Len(p.r) |-> Azimuth(f, p.r[i])])
@@ -301,6 +307,29 @@ PaintB == LET n == Len(feats)  full == Pow2(n) - 1
                             subsets |-> [singles |-> [k \in 1..n |-> hof(Pow2(k - 1))], names |-> [k \in 1..n |-> TagOf(k)],
                                          worlds |-> [m \in 1..full |-> <<m - 1, 1 + m>>]], rows |-> Rows] >>]
 
+(* C10: a segment that declares no models of a kind uses those of its section, or else of the feature; a coordinate without a section
+   entry uses the default segment list.  The explicit form of a document writes all of that out - every coordinate of every slab and
+   fault gets a section entry, every segment of every list carries the four model lists it would have inherited - and must build an
+   indistinguishable world. *)
+RenderX(f, a, k) ==
+  LET t == a.type
+      r == Render(f, a, k)
+      tm == Models(TModels(f, t), a.tm)  cm == Models(CModels(f, t), a.cm)  gm == Models(GModels(f, t), a.gm)  vm == Models(VModels(f, t), a.vm)
+      feat == ("temperature models" :> tm) @@ ("composition models" :> cm) @@ ("grains models" :> gm) @@ ("velocity models" :> vm)
+      inh(lvl) == lvl @@ feat                                                  \* what a level hands down: its own lists, else the feature's
+      segs(list, lvl) == [i \in 1..Len(list) |-> list[i] @@ inh(lvl)]           \* a segment's own lists win
+      nc == Len(Trenches[a.g])
+      over == IF a.so > 0 THEN SecCoord(a) ELSE -1                             \* the coordinate the document overrides, if any
+      entry(c) == IF c = over THEN ("coordinate" :> c) @@ ("segments" :> segs(SecSegs(a), SecModels(a))) @@ SecModels(a)
+                  ELSE ("coordinate" :> c) @@ ("segments" :> segs(SegSets[a.sg], <<>>))
+  IN IF IsLine(t) THEN ("segments" :> segs(SegSets[a.sg], <<>>)) @@ ("sections" :> [i \in 1..nc |-> entry(i - 1)]) @@ r ELSE r
+DocX == World(IF sph THEN Spherical(DepthMethods[dm]) ELSE Cartesian, [k \in 1..Len(feats) |-> RenderX(IdF(sph), feats[k], k)]) @@ Globals[glob]
+        @@ ("cross section" :> <<XYg(IdF(sph), Sections[sec][1]), XYg(IdF(sph), SecEnd(Sections[sec]))>>)
+HasLine == \E k \in 1..Len(feats) : IsLine(feats[k].type)
+ExplicitB == [id |-> Id("explicit"), labels |-> Labels("explicit"),
+              steps |-> << [op |-> "create", h |-> 1, wb |-> Doc, expect |-> "any"], [op |-> "create", h |-> 2, wb |-> DocX, expect |-> "any"],
+                           [op |-> "qtable", h |-> 1, h2 |-> 2, dim |-> 3, sph |-> sph, props |-> AllProps, may_throw |-> TRUE, pre_dist |-> LineNames, rows |-> Rows] >>]
+
 (* C14: the document as a job for real threads (harness/threads.cc): one probe per lattice position, the depth cycling *)
 ThreadJob == LET n == Len(Rows) \div Len(DepthsM) IN
              [wb |-> Doc, gen |-> Id("threads"),
@@ -339,7 +368,7 @@ SectionMovedB == LET f == Frames(sph)[frame] IN
                                [op |-> "qtable", h |-> 1, dim |-> 3, sph |-> sph, props |-> SectionProps, may_throw |-> TRUE,
                                 also2d |-> [x |-> 4, z |-> 5, rel |-> Dec(1, -7), abs |-> Dec(1, -7)], rows |-> SMRows(f)] >>]
 
-Emit == ~done \/ ((IF Len(feats) <= 3 THEN PrintT(<<"B", ToJson(PaintB)>>) ELSE TRUE) /\ PrintT(<<"B", ToJson(SectionMovedB)>>) /\ PrintT(<<"B", ToJson(SectionB)>>) /\ PrintT(<<"J", ToJson(ThreadJob)>>) /\ PrintT(<<"B", ToJson(FiniteB)>>) /\ PrintT(<<"B", ToJson(PurityB)>>) /\ PrintT(<<"B", ToJson(CullB)>>)
+Emit == ~done \/ ((IF HasLine THEN PrintT(<<"B", ToJson(ExplicitB)>>) ELSE TRUE) /\ (IF Len(feats) <= 3 THEN PrintT(<<"B", ToJson(PaintB)>>) ELSE TRUE) /\ PrintT(<<"B", ToJson(SectionMovedB)>>) /\ PrintT(<<"B", ToJson(SectionB)>>) /\ PrintT(<<"J", ToJson(ThreadJob)>>) /\ PrintT(<<"B", ToJson(FiniteB)>>) /\ PrintT(<<"B", ToJson(PurityB)>>) /\ PrintT(<<"B", ToJson(CullB)>>)
                   /\ PrintT(<<"B", ToJson(WrapperB)>>) /\ PrintT(<<"B", ToJson(MotionB)>>))
 
 (* the machine only ever appends well-formed features; the frames are rigid *)
